@@ -439,7 +439,7 @@ class Ctx:
 
 def load_known_findings(pid):
     p = VERIF / "known_findings.json"
-    if not p.exists():
+    if not p.exists() or os.environ.get("VERIF_IGNORE_KNOWN") == "1":     # dev switch: regenerate the replay of a recorded finding
         return []
     data = json.loads(p.read_text())
     return [e for e in data.get("findings", []) if e.get("property") == pid and e.get("status") == "open"]
